@@ -361,6 +361,26 @@ func TestBodyFaults(t *testing.T) {
 			}
 		}
 	}
+	// the context is cancelled after k bytes but the body still arrives completely
+	for _, body := range []string{"", "x", small, big} {
+		for _, k := range []int{0, 1, len(body) / 2, len(body)} {
+			for _, target := range []string{"/new", "/old", "/dir/keep", "/dir", "/nodir/x"} {
+				idx++
+				if !vev.MyShare(idx) {
+					continue
+				}
+				k := k
+				s := mk(map[string]string{"old": "previous content of old"})
+				e.set(s)
+				r := vfs.Req{Method: "PUT", Path: target, Body: body, CancelAfter: &k}
+				st, err := e.step(r)
+				if err != nil {
+					t.Fatal(err)
+				}
+				report(t, Case{Tree: ToJ(s), Reqs: []vfs.Req{r}}, e.judge(st, "F"))
+			}
+		}
+	}
 	rec02.ExhaustiveSub("PUT body failure at every offset of bodies of 0, 1 and 64 bytes and at offsets around 32 KiB/64 KiB of an 80000-byte body x 3 failure kinds x 6 target kinds")
 }
 
